@@ -250,6 +250,29 @@ func (h *SH) Sub(ctx context.Context, tok int, n int) (<-chan int, error) {
 	return out, nil
 }
 
+// SubBoth is Sub declared with a bidirectional channel type (`chan int`, as a handler written without the
+// arrow would be): still a subscription in every respect.
+func (h *SH) SubBoth(ctx context.Context, tok int, n int) (chan int, error) {
+	h.C.enter(ctx, "SubBoth", tok)
+	out := make(chan int)
+	h.RT.Log("h.subch", "tok", tok, "hp", out)
+	go func() {
+		defer close(out)
+		defer h.C.exit(tok, "stream-end")
+		for i := 0; n < 0 || i < n; i++ {
+			select {
+			case out <- tok*1000000 + i:
+				h.RT.Log("h.sent", "tok", tok, "i", i)
+			case <-ctx.Done():
+				h.RT.Log("h.subctx", "tok", tok)
+				return
+			}
+		}
+		h.RT.Log("h.subclose", "tok", tok)
+	}()
+	return out, nil
+}
+
 // SubMixed sends n values of which every third does not fit into an int8 (what the client of SubSmall declared).
 func (h *SH) SubMixed(ctx context.Context, tok int, n int) (<-chan int, error) {
 	h.C.enter(ctx, "SubMixed", tok)
@@ -448,6 +471,7 @@ type CL struct {
 	NoteBlock     func(int) `notify:"true"`
 	CallBackBlock func(context.Context, int) (int, error)
 	SubOdd        func(context.Context, int, int) (<-chan float64, error)
+	SubBoth       func(context.Context, int, int) (<-chan int, error)
 	Boom          func(int) `notify:"true"`
 	Missing       func(int) `notify:"true"` // the server has no such method
 	NotifyAbsent  func(context.Context, int) (int, error)
